@@ -140,7 +140,7 @@ func runPolarityCoherent(p *Program, r *RuleResult) {
 					if !ok || (f.k != factTrue && f.k != factFalse) {
 						continue
 					}
-					if sc := c.Common().StaticCallee(); sc == nil || sc.Name() != "isProvider" {
+					if !p.isProviderFunc(c.Common().StaticCallee()) {
 						continue
 					}
 					ap := accessPath(c.Common().Args[0])
@@ -211,4 +211,122 @@ func constantIntVal(a AVal) (int64, bool) {
 	var n int64
 	_, err := fmt.Sscan(a.C.ExactString(), &n)
 	return n, err == nil
+}
+
+// R-SHADOW-SELF (C01, C07, C14): whatever name the typechecker treats as the provider of a
+// judgement is a name the interpreter turns into `self` before running that code.
+func init() {
+	register(&Rule{Name: "R-SHADOW-SELF", Min: 8,
+		Doc: "every shadow-provider argument of a typing judgement is nil, the rule's own shadow parameter handed on, or a binder field of the form that the form's transition substitutes by a self name (a name with IsSelf set); the cut's binder is covered by the reuse dichotomy; root judgements pass nil",
+		Run: runShadowSelf})
+}
+
+// returnsSelfName: fn returns a Name composite with IsSelf = true.
+func returnsSelfName(fn *ssa.Function) bool {
+	if fn == nil || fn.Blocks == nil {
+		return false
+	}
+	for _, b := range fn.Blocks {
+		for _, in := range b.Instrs {
+			st, ok := in.(*ssa.Store)
+			if !ok {
+				continue
+			}
+			if _, n, ok := fieldNameOf(st.Addr); ok && n == "IsSelf" {
+				if c, ok := st.Val.(*ssa.Const); ok && c.Value != nil && c.Value.String() == "true" {
+					return true
+				}
+			}
+		}
+	}
+	return false
+}
+
+func runShadowSelf(p *Program, r *RuleResult) {
+	byFn := map[*ssa.Function]*tcMethod{}
+	for _, m := range p.typecheckMethods() {
+		byFn[m.Fn] = m
+	}
+	ord := map[string]int{}
+	for _, fn := range p.SrcFuncs {
+		if fn.Pkg == nil || fn.Pkg.Pkg.Path() != processPkg {
+			continue
+		}
+		for _, c := range p.callsIn(fn) {
+			call, ok := c.(*ssa.Call)
+			if !ok || !call.Common().IsInvoke() || call.Common().Method.Name() != "typecheckForm" {
+				continue
+			}
+			var shadow ssa.Value
+			for _, a := range call.Common().Args {
+				if isPtr(a.Type()) && isNameType(a.Type()) {
+					shadow = a
+				}
+			}
+			if shadow == nil {
+				continue
+			}
+			name := fnName(fn)
+			ord[name]++
+			construct := fmt.Sprintf("judgement#%d-shadow", ord[name])
+			m := byFn[fn]
+			switch {
+			case isNilConst(shadow):
+				r.add(name, construct, Holds, p.instrPos(call), "nil: only `self` names the provider")
+				continue
+			case m != nil && origin(shadow) == ssa.Value(m.Shadow):
+				r.add(name, construct, Holds, p.instrPos(call), "the rule's own shadow provider is handed on")
+				continue
+			}
+			ap := accessPath(shadow)
+			if m == nil || !strings.HasPrefix(ap, m.Recv.Name()+".") {
+				r.add(name, construct, Violated, p.instrPos(call),
+					fmt.Sprintf("the judgement treats %s as the provider, but nothing makes the interpreter treat that name as self (only names with IsSelf set are the provider at run time): accepted programs that use the name fail with 'should be self' / 'expected …'", describeVal(shadow)))
+				continue
+			}
+			field := strings.TrimPrefix(ap, m.Recv.Name()+".")
+			// the form's transitions substitute that field by a self name
+			okAll := true
+			checked := 0
+			for _, fam := range []string{"Transition", "TransitionNP"} {
+				tr := p.MethodOpt(m.T, fam)
+				if tr == nil {
+					continue
+				}
+				found := false
+				for _, f2 := range append([]*ssa.Function{tr}, allAnon(tr)...) {
+					for _, c2 := range p.callsIn(f2) {
+						com := c2.Common()
+						if !(com.IsInvoke() && com.Method.Name() == "Substitute") || len(com.Args) != 2 {
+							continue
+						}
+						oldP := accessPath(com.Args[0])
+						if !strings.HasSuffix(oldP, "."+lastSeg(field)) {
+							continue
+						}
+						if nc, ok := com.Args[1].(*ssa.Call); ok && returnsSelfName(nc.Common().StaticCallee()) {
+							found = true
+						}
+					}
+				}
+				checked++
+				if !found {
+					okAll = false
+				}
+			}
+			switch {
+			case okAll && checked > 0:
+				r.add(name, construct, Holds, p.instrPos(call), "binder "+field+" is substituted by a self name when the form transitions")
+			case p.reuseLookup(m, ap+".Ident") != nil:
+				okD, why := p.checkReuseDichotomy(m, ap+".Ident")
+				if okD {
+					r.add(name, construct, Holds, p.instrPos(call), "the spawned body cannot mention the fresh binder (reuse dichotomy), so the shadow provider is never consulted for it")
+				} else {
+					r.add(name, construct, Violated, p.instrPos(call), why)
+				}
+			default:
+				r.add(name, construct, Violated, p.instrPos(call), fmt.Sprintf("the judgement treats %s as the provider of the child, but the form's transition never substitutes it by a self name", field))
+			}
+		}
+	}
 }
